@@ -148,37 +148,61 @@ def centres_frac(ms):
     return out
 
 
-def gen_target(rng, allow_neg=True):
+def gen_target(rng):
     r = rng.random()
     if r < 0.12:
         return Fraction(0)
     m = Fraction(rng.choice([1, 1, 2, 3, 5, 7, 10, 800000]))
     k = rng.choice([0, 0, 0, 1, -1, 2, -4, 10, rng.randint(-30, 40), rng.randint(40, 300)])
     t = m * Fraction(2) ** k
-    if allow_neg and rng.random() < 0.06:
-        t = -t
     return t
 
 
 def gen_poly(rng, ms, scale=Fraction(1)):
-    """polynomial of position with small integer coefficients, degree <= 2; often vanishing on a plane of centres"""
+    """polynomial of position, degree <= 2, small integer coefficients, NON-NEGATIVE at every point (a norm is a
+    length; negative targets are outside the property); often vanishing on a whole plane of cell centres"""
     nd = len(ms["n"])
     cs = centres_frac(ms)
     terms = []
+
+    def unit(ax, k):
+        e = [0] * nd
+        e[ax] = k
+        return e
+
+    if rng.random() < 0.5:  # a * (p_ax - x0)^2, zero on the plane p_ax = x0
+        ax = rng.randrange(nd)
+        x0 = rng.choice(cs)[ax]
+        a = rng.choice([1, 2, 4])
+        terms = [dict(c=Q(scale * a), e=unit(ax, 2)), dict(c=Q(-2 * scale * a * x0), e=unit(ax, 1)),
+                 dict(c=Q(scale * a * x0 * x0), e=[0] * nd)]
+        if rng.random() < 0.4:
+            terms.append(dict(c=Q(scale * rng.randint(1, 5)), e=unit(rng.randrange(nd), 2)))
+    else:
+        terms.append(dict(c=Q(scale * rng.randint(0, 9)), e=[0] * nd))
+        for ax in range(nd):
+            if rng.random() < 0.7:
+                terms.append(dict(c=Q(scale * rng.randint(0, 5)), e=unit(ax, 2)))
+    return terms
+
+
+def gen_signed_poly(rng, ms):
+    """polynomial that changes sign (used for VALUES, where any sign is fine)"""
+    nd = len(ms["n"])
+    cs = centres_frac(ms)
     if rng.random() < 0.5:
         ax = rng.randrange(nd)
         x0 = rng.choice(cs)[ax]
         a = rng.choice([1, 2, -1, 4])
         e = [0] * nd
         e[ax] = 1
-        terms = [dict(c=Q(scale * a), e=e), dict(c=Q(-scale * a * x0), e=[0] * nd)]
-    else:
-        terms.append(dict(c=Q(scale * rng.randint(0, 9)), e=[0] * nd))
-        for ax in range(nd):
-            if rng.random() < 0.7:
-                e = [0] * nd
-                e[ax] = rng.choice([1, 1, 2])
-                terms.append(dict(c=Q(scale * rng.randint(-3, 5)), e=e))
+        return [dict(c=Q(a), e=e), dict(c=Q(-a * x0), e=[0] * nd)]
+    terms = [dict(c=Q(rng.randint(0, 9)), e=[0] * nd)]
+    for ax in range(nd):
+        if rng.random() < 0.7:
+            e = [0] * nd
+            e[ax] = rng.choice([1, 1, 2])
+            terms.append(dict(c=Q(rng.randint(-3, 5)), e=e))
     return terms
 
 
@@ -240,7 +264,7 @@ def gen_vspec(rng, ms, nv, malformed=False):
     if kind == "zero":
         return dict(k="scalar", v="0") if rng.random() < 0.7 or nv > 1 else dict(k="scalar", v=Q(rng.randint(-5, 5)))
     base = gen_cell(rng, nv, "plain")
-    q = gen_poly(rng, ms)
+    q = gen_signed_poly(rng, ms)
     return dict(k="poly", comps=[[dict(c=Q(fr(t["c"]) * b), e=t["e"]) for t in q] for b in base])
 
 
@@ -435,7 +459,7 @@ def check_rescaled(name, pre, post, targets, fail):
                     fail(f"{name}: cell {k} direction changed: {[float(x) for x in v]} -> {[float(x) for x in w]}")
                     return
         dot = sum((x * y for x, y in zip(v, w)), Fraction(0))
-        if (t > 0 and dot <= 0) or (t < 0 and dot >= 0):
+        if t > 0 and dot <= 0:
             fail(f"{name}: cell {k} points the wrong way: {[float(x) for x in v]} -> {[float(x) for x in w]} for target {float(t)}")
             return
 
@@ -640,6 +664,8 @@ def drv_step(st):
 
 
 def model_requests(case, obs):
+    if "mesh" not in obs:  # the adapter crashed: reported through the oracle channel by core
+        return []
     reqs = [dict(op="ctor_prog", mesh=obs["mesh"], nvdim=case["nvdim"], value=case["value"], norm=drv_nspec(case["norm"]),
                  valid=case["valid"], unit=case["unit"], atol=Q(ATOL), steps=[])]
     for si, pre in enumerate(obs["pre"]):
@@ -756,6 +782,8 @@ def cmp_snap(name, impl, model, dis, pre_info=None, field_rel=None):
 
 def compare(case, obs, rs):
     dis = []
+    if not rs:
+        return dis
     r0 = rs[0]
     if obs["err_at"] == -1:
         if "err" not in r0:
